@@ -129,4 +129,533 @@ theorem firstToken_spec (r : Red) (hr : RInv r) (p : Path) (g : Green) (hm : Mat
   have hfuel : gsize g ≤ Red.walkFuel r p := by simp [Red.walkFuel, hg]; omega
   exact (firstTokenGo_spec _ r p g hr hm hg hfuel).1
 
+/-! ### `last_token` -/
+
+theorem leafPathsL_append (p : Path) (i : Nat) (a b : List Green) :
+    leafPathsL p i (a ++ b) = leafPathsL p i a ++ leafPathsL p (i + a.length) b := by
+  induction a generalizing i with
+  | nil => simp [leafPathsL]
+  | cons c cs ih =>
+    have e : i + 1 + cs.length = i + (cs.length + 1) := by omega
+    simp only [List.cons_append, leafPathsL, ih (i + 1), List.append_assoc, List.length_cons, e]
+
+theorem leafPathsL_take_succ (p : Path) (cs : List Green) (i : Nat) (c : Green) (hc : cs[i]? = some c) :
+    leafPathsL p 0 (cs.take (i + 1)) = leafPathsL p 0 (cs.take i) ++ leafPaths (p ++ [i]) c := by
+  have hi : i < cs.length := (List.getElem?_eq_some_iff.mp hc).1
+  have e : cs.take (i + 1) = cs.take i ++ [c] := by
+    rw [List.take_add_one, hc]; rfl
+  rw [e, leafPathsL_append]
+  have hl : (cs.take i).length = i := by rw [List.length_take]; omega
+  simp [leafPathsL, hl]
+
+theorem lastChildOrToken_mat (r : Red) (p : Path) :
+    (∀ q, (r.lastChildOrToken p).1 = some q → Mat (r.lastChildOrToken p).2 q) ∧
+    (∀ q, Mat r q → Mat (r.lastChildOrToken p).2 q) := by
+  simp only [Red.lastChildOrToken]
+  cases r.green p with
+  | none => exact ⟨by simp, fun q h => h⟩
+  | some g =>
+    cases hs : r.start p with
+    | none => exact ⟨by simp, fun q h => h⟩
+    | some o =>
+      have := pick_mat r p ((childrenTo g.children g.children.length (o + g.len)).head?)
+      exact ⟨this.1, this.2.1⟩
+
+theorem prevSiblingOrToken_mat (r : Red) (p : Path) :
+    (∀ q, (r.prevSiblingOrToken p).1 = some q → Mat (r.prevSiblingOrToken p).2 q) ∧
+    (∀ q, Mat r q → Mat (r.prevSiblingOrToken p).2 q) := by
+  simp only [Red.prevSiblingOrToken]
+  cases Red.split p with
+  | none => exact ⟨by simp, fun q h => h⟩
+  | some qi =>
+    obtain ⟨q, i⟩ := qi
+    cases r.range p with
+    | none => exact ⟨by simp, fun q h => h⟩
+    | some se =>
+      simp only [Red.prevChildOrTokenBefore]
+      cases r.green q with
+      | none => exact ⟨by simp, fun q h => h⟩
+      | some g =>
+        have := pick_mat r q ((childrenTo g.children i se.1).head?)
+        exact ⟨this.1, this.2.1⟩
+
+/-- **`last_token`**: the last token leaf of the sub-tree -/
+theorem lastTokenGo_spec (n : Nat) : ∀ (r : Red) (p : Path) (g : Green), RInv r → Mat r p → r.green p = some g →
+    gsize g ≤ n →
+    (Red.lastTokenGo n r p).1 = (leafPaths p g).getLast? ∧ RInv (Red.lastTokenGo n r p).2 ∧
+    (Red.lastTokenGo n r p).2.root = r.root ∧ (∀ q, Mat r q → Mat (Red.lastTokenGo n r p).2 q) := by
+  induction n with
+  | zero => intro r p g _ _ _ hsz; cases g <;> simp [gsize] at hsz
+  | succ n ih =>
+    intro r p g hr hm hg hsz
+    simp only [Red.lastTokenGo]
+    by_cases htok : r.isToken p = true
+    · simp only [htok, ↓reduceIte]
+      cases g with
+      | tok _ _ _ _ => exact ⟨by first | rfl | trivial, hr, by first | rfl | trivial, fun _ h => h⟩
+      | node _ _ _ _ _ => simp [Red.isToken, hg, Green.isNode] at htok
+    · simp only [htok, Bool.false_eq_true, ↓reduceIte]
+      cases g with
+      | tok _ _ _ _ => simp [Red.isToken, hg, Green.isNode] at htok
+      | node id kd l h cs =>
+        obtain ⟨o, ho⟩ := hm
+        have hspec := C03.lastChildOrToken_spec r p _ o hg ho
+        have hkeep : RInv (r.lastChildOrToken p).2 ∧ (r.lastChildOrToken p).2.root = r.root := lastChildOrToken_keeps p r hr
+        have hmat := lastChildOrToken_mat r p
+        simp only [Green.children] at hspec
+        cases hres : r.lastChildOrToken p with
+        | mk oc r1 =>
+          rw [hres] at hspec hkeep hmat
+          simp only at hspec hkeep hmat
+          cases hcs : cs with
+          | nil =>
+            simp only [hcs, ↓reduceIte] at hspec
+            subst hspec
+            simp only [leafPaths, leafPathsL, List.getLast?_nil]
+            exact ⟨by first | rfl | trivial, hkeep.1, hkeep.2, hmat.2⟩
+          | cons c0 cs0 =>
+            have hne : cs ≠ [] := by rw [hcs]; simp
+            simp only [hne, ↓reduceIte] at hspec
+            subst hspec
+            simp only [leafPaths]
+            rw [← hcs]
+            -- scanning backwards from child `i`
+            suffices ∀ k i (r' : Red), RInv r' → r'.root = r.root → Mat r' (p ++ [i]) → i < cs.length → i < k →
+                (Red.lastTokenGo.scanBack n r' (p ++ [i]) k).1 = (leafPathsL p 0 (cs.take (i + 1))).getLast? ∧
+                RInv (Red.lastTokenGo.scanBack n r' (p ++ [i]) k).2 ∧
+                (Red.lastTokenGo.scanBack n r' (p ++ [i]) k).2.root = r'.root ∧
+                (∀ q, Mat r' q → Mat (Red.lastTokenGo.scanBack n r' (p ++ [i]) k).2 q) by
+              have hlen : cs.length - 1 < cs.length := by
+                have : 0 < cs.length := List.length_pos_iff.mpr hne
+                omega
+              have hk : Red.nSiblings r1 (p ++ [cs.length - 1]) = cs.length + 1 := by
+                simp only [Red.nSiblings, C03.parent_child]
+                have : r1.green p = some (.node id kd l h cs) := by unfold Red.green at hg ⊢; rw [hkeep.2]; exact hg
+                simp [this, Green.children]
+              have := this (Red.nSiblings r1 (p ++ [cs.length - 1])) (cs.length - 1) r1 hkeep.1 hkeep.2 (hmat.1 _ rfl) hlen (by rw [hk]; omega)
+              have e : cs.length - 1 + 1 = cs.length := by omega
+              rw [e, List.take_length] at this
+              exact ⟨this.1, this.2.1, this.2.2.1.trans hkeep.2, fun q hq => this.2.2.2 q (hmat.2 q hq)⟩
+            intro k
+            induction k with
+            | zero => intro i r' _ _ _ _ hk; omega
+            | succ k ihk =>
+              intro i r' hr' hroot' hmi hi hk
+              have hci : cs[i]? = some cs[i] := List.getElem?_eq_getElem hi
+              have hgp : r'.green p = some (.node id kd l h cs) := by unfold Red.green at hg ⊢; rw [hroot']; exact hg
+              have hgc : r'.green (p ++ [i]) = some cs[i] := by
+                unfold Red.green at hgp ⊢
+                exact C03.get_child r'.root p _ hgp i cs[i] (by simpa [Green.children] using hci)
+              have hsmall : gsize cs[i] ≤ n := by
+                have := gsizeL_mem (List.getElem_mem hi)
+                simp only [gsize] at hsz
+                omega
+              obtain ⟨f1, f2, f3, f4⟩ := ih r' (p ++ [i]) cs[i] hr' hmi hgc hsmall
+              simp only [Red.lastTokenGo.scanBack]
+              rw [leafPathsL_take_succ p cs i cs[i] hci, List.getLast?_append]
+              cases hlt : Red.lastTokenGo n r' (p ++ [i]) with
+              | mk ot r2 =>
+                rw [hlt] at f1 f2 f3 f4
+                simp only at f1 f2 f3 f4
+                cases ot with
+                | some t =>
+                  simp only
+                  rw [← f1]
+                  exact ⟨by first | rfl | trivial, f2, f3, f4⟩
+                | none =>
+                  simp only
+                  rw [← f1, Option.none_or]
+                  have hm2 : Mat r2 (p ++ [i]) := f4 _ hmi
+                  have hg2 : r2.green p = some (.node id kd l h cs) := by unfold Red.green at hgp ⊢; rw [f3]; exact hgp
+                  have hgc2 : r2.green (p ++ [i]) = some cs[i] := by unfold Red.green at hgc ⊢; rw [f3]; exact hgc
+                  obtain ⟨se, hse⟩ := range_of_mat hm2 hgc2
+                  have hps := C03.prevSiblingOrToken_spec r2 p i _ se hg2 (by simpa [Green.children] using hi) hse
+                  have hpk : RInv (r2.prevSiblingOrToken (p ++ [i])).2 ∧ (r2.prevSiblingOrToken (p ++ [i])).2.root = r2.root :=
+                    prevSiblingOrToken_keeps (p ++ [i]) r2 f2
+                  have hpm := prevSiblingOrToken_mat r2 (p ++ [i])
+                  cases hpr : r2.prevSiblingOrToken (p ++ [i]) with
+                  | mk oc r3 =>
+                    rw [hpr] at hps hpk hpm
+                    simp only at hps hpk hpm
+                    by_cases hi0 : i = 0
+                    · simp only [hi0, ↓reduceIte] at hps
+                      subst hps
+                      simp only [hi0, List.take_zero, leafPathsL, List.getLast?_nil]
+                      exact ⟨by first | rfl | trivial, hpk.1, hpk.2.trans f3, fun q hq => hpm.2 q (f4 q hq)⟩
+                    · simp only [hi0, ↓reduceIte] at hps
+                      subst hps
+                      simp only
+                      have := ihk (i - 1) r3 hpk.1 ((hpk.2.trans f3).trans hroot') (hpm.1 _ rfl) (by omega) (by omega)
+                      have e : i - 1 + 1 = i := by omega
+                      rw [e] at this
+                      exact ⟨this.1, this.2.1, (this.2.2.1.trans hpk.2).trans f3, fun q hq => this.2.2.2 q (hpm.2 q (f4 q hq))⟩
+
+/-- `SyntaxNode::last_token` / `SyntaxElementRef::last_token` -/
+theorem lastToken_spec (r : Red) (hr : RInv r) (p : Path) (g : Green) (hm : Mat r p) (hg : r.green p = some g) :
+    (r.lastToken p).1 = (leafPaths p g).getLast? := by
+  have hfuel : gsize g ≤ Red.walkFuel r p := by simp [Red.walkFuel, hg]; omega
+  exact (lastTokenGo_spec _ r p g hr hm hg hfuel).1
+
+/-! ### `next_token` -/
+
+/-- the token leaves that follow the sub-tree at `p` in source order: those of the following siblings,
+    then those that follow the parent (fuel = length of the path) -/
+def afterGo (root : Green) : Nat → Path → List Path
+  | 0, _ => []
+  | n + 1, p =>
+    match p.getLast? with
+    | none => []
+    | some i =>
+      (match Green.get root p.dropLast with
+       | some t => leafPathsL p.dropLast (i + 1) (t.children.drop (i + 1))
+       | none => []) ++ afterGo root n p.dropLast
+
+/-- the scan over the following siblings: first token leaf among children `j, j+1, …` of `q` -/
+theorem nextSibScan_spec (r0 : Red) (q : Path) (t : Green) : ∀ (k j : Nat) (r : Red), RInv r → r.root = r0.root →
+    r.green q = some t → Mat r (q ++ [j]) → j < t.children.length → t.children.length - j < k →
+    (Red.nextTokenGo.sibScan r (q ++ [j]) k).1 = (leafPathsL q j (t.children.drop j)).head? ∧
+    RInv (Red.nextTokenGo.sibScan r (q ++ [j]) k).2 ∧ (Red.nextTokenGo.sibScan r (q ++ [j]) k).2.root = r.root ∧
+    (∀ x, Mat r x → Mat (Red.nextTokenGo.sibScan r (q ++ [j]) k).2 x) := by
+  intro k
+  induction k with
+  | zero => intro j r _ _ _ _ _ hk; omega
+  | succ k ih =>
+    intro j r hr hroot hgq hm hj hk
+    have hcj : t.children[j]? = some t.children[j] := List.getElem?_eq_getElem hj
+    have hgc : r.green (q ++ [j]) = some t.children[j] := by
+      unfold Red.green at hgq ⊢
+      exact C03.get_child r.root q t hgq j _ hcj
+    have hfuel : gsize t.children[j] ≤ Red.walkFuel r (q ++ [j]) := by simp [Red.walkFuel, hgc]; omega
+    obtain ⟨f1, f2, f3, f4⟩ := firstTokenGo_spec _ r (q ++ [j]) t.children[j] hr hm hgc hfuel
+    have hdrop : t.children.drop j = t.children[j] :: t.children.drop (j + 1) := by
+      rw [List.drop_eq_getElem_cons hj]
+    simp only [Red.nextTokenGo.sibScan, Red.elemFirstToken]
+    rw [hdrop]
+    simp only [leafPathsL, List.head?_append]
+    cases hft : Red.firstTokenGo (Red.walkFuel r (q ++ [j])) r (q ++ [j]) with
+    | mk ot r1 =>
+      rw [hft] at f1 f2 f3 f4
+      simp only at f1 f2 f3 f4
+      cases ot with
+      | some x =>
+        simp only
+        rw [← f1]
+        exact ⟨by first | rfl | trivial, f2, f3, f4⟩
+      | none =>
+        simp only
+        rw [← f1, Option.none_or]
+        have hm1 : Mat r1 (q ++ [j]) := f4 _ hm
+        have hgq1 : r1.green q = some t := by unfold Red.green at hgq ⊢; rw [f3]; exact hgq
+        have hgc1 : r1.green (q ++ [j]) = some t.children[j] := by unfold Red.green at hgc ⊢; rw [f3]; exact hgc
+        obtain ⟨se, hse⟩ := range_of_mat hm1 hgc1
+        have hns := C03.nextSiblingOrToken_spec r1 q j t se hgq1 hse
+        have hnk : RInv (r1.nextSiblingOrToken (q ++ [j])).2 ∧ (r1.nextSiblingOrToken (q ++ [j])).2.root = r1.root :=
+          nextSiblingOrToken_keeps (q ++ [j]) r1 f2
+        have hnm := nextSiblingOrToken_mat r1 (q ++ [j])
+        cases hnr : r1.nextSiblingOrToken (q ++ [j]) with
+        | mk os r2 =>
+          rw [hnr] at hns hnk hnm
+          simp only at hns hnk hnm
+          by_cases hlt : j + 1 < t.children.length
+          · simp only [hlt, ↓reduceIte] at hns
+            subst hns
+            simp only
+            have hgq2 : r2.green q = some t := by unfold Red.green at hgq1 ⊢; rw [hnk.2]; exact hgq1
+            have := ih (j + 1) r2 hnk.1 ((hnk.2.trans f3).trans hroot) hgq2 (hnm.1 _ rfl) hlt (by omega)
+            exact ⟨this.1, this.2.1, (this.2.2.1.trans hnk.2).trans f3, fun x hx => this.2.2.2 x (hnm.2.1 x (f4 x hx))⟩
+          · simp only [hlt, ↓reduceIte] at hns
+            subst hns
+            have hnil : t.children.drop (j + 1) = [] := List.drop_eq_nil_of_le (by omega)
+            simp only [hnil, leafPathsL, List.head?_nil]
+            exact ⟨by first | rfl | trivial, hnk.1, hnk.2.trans f3, fun x hx => hnm.2.1 x (f4 x hx)⟩
+
+/-- **`next_token`**: the first token leaf that follows the element in source order — among the following
+    siblings first, then after the parent, and so on up to the root (`None` at the end of the tree) -/
+theorem nextTokenGo_spec (n : Nat) : ∀ (r : Red) (cur : Path), RInv r → (∀ q, q <+: cur → Mat r q) →
+    (∃ c, r.green cur = some c) → cur.length ≤ n →
+    (Red.nextTokenGo (n + 1) r cur).1 = (afterGo r.root (n + 1) cur).head? := by
+  induction n with
+  | zero =>
+    intro r cur hr hmat hg hlen
+    have : cur = [] := List.eq_nil_of_length_eq_zero (by omega)
+    subst this
+    simp [Red.nextTokenGo, Red.nextSiblingOrToken, Red.split, Red.nextTokenGo.up, Red.parent, afterGo]
+  | succ n ih =>
+    intro r cur hr hmat hg hlen
+    cases hl : cur.getLast? with
+    | none =>
+      have : cur = [] := List.getLast?_eq_none_iff.mp hl
+      subst this
+      simp [Red.nextTokenGo, Red.nextSiblingOrToken, Red.split, Red.nextTokenGo.up, Red.parent, afterGo]
+    | some i =>
+      obtain ⟨q, rfl⟩ := List.getLast?_eq_some_iff.mp hl
+      obtain ⟨c, hc⟩ := hg
+      have hmcur : Mat r (q ++ [i]) := hmat _ (List.prefix_refl _)
+      have hmq : Mat r q := hmat q (List.prefix_append _ _)
+      -- the parent
+      have hgq : ∃ t, r.green q = some t ∧ t.children[i]? = some c := by
+        have : Green.get r.root (q ++ [i]) = some c := hc
+        rw [get_append_single] at this
+        cases hq : Green.get r.root q with
+        | none => simp [hq] at this
+        | some t => simp only [hq, Option.bind_some] at this; exact ⟨t, hq, this⟩
+      obtain ⟨t, htq, hti⟩ := hgq
+      have hi : i < t.children.length := (List.getElem?_eq_some_iff.mp hti).1
+      obtain ⟨se, hse⟩ := range_of_mat hmcur hc
+      have hns := C03.nextSiblingOrToken_spec r q i t se htq hse
+      have hnk : RInv (r.nextSiblingOrToken (q ++ [i])).2 ∧ (r.nextSiblingOrToken (q ++ [i])).2.root = r.root :=
+        nextSiblingOrToken_keeps (q ++ [i]) r hr
+      have hnm := nextSiblingOrToken_mat r (q ++ [i])
+      have hgetq : Green.get r.root q = some t := htq
+      simp only [Red.nextTokenGo, afterGo, hl, List.dropLast_concat, hgetq]
+      -- going up: the recursion on the parent
+      have hup : ∀ (r' : Red), RInv r' → r'.root = r.root → (∀ x, Mat r x → Mat r' x) →
+          (Red.nextTokenGo.up (n + 1) r' (q ++ [i])).1 = (afterGo r.root (n + 1) q).head? := by
+        intro r' hr' hroot' hmono
+        simp only [Red.nextTokenGo.up, C03.parent_child]
+        have := ih r' q hr' (fun x hx => hmono x (hmat x (List.IsPrefix.trans hx (List.prefix_append _ _))))
+          ⟨t, by unfold Red.green at htq ⊢; rw [hroot']; exact htq⟩ (by simp at hlen; omega)
+        rw [this, hroot']
+      cases hnr : r.nextSiblingOrToken (q ++ [i]) with
+      | mk os r1 =>
+        rw [hnr] at hns hnk hnm
+        simp only at hns hnk hnm
+        by_cases hlt : i + 1 < t.children.length
+        · simp only [hlt, ↓reduceIte] at hns
+          subst hns
+          simp only
+          have hgq1 : r1.green q = some t := by unfold Red.green at htq ⊢; rw [hnk.2]; exact htq
+          have hk : Red.nSiblings r1 (q ++ [i + 1]) = t.children.length + 1 := by
+            simp [Red.nSiblings, C03.parent_child, hgq1]
+          have hscan := nextSibScan_spec r q t (Red.nSiblings r1 (q ++ [i + 1])) (i + 1) r1 hnk.1 hnk.2 hgq1 (hnm.1 _ rfl) hlt (by rw [hk]; omega)
+          cases hsc : Red.nextTokenGo.sibScan r1 (q ++ [i + 1]) (Red.nSiblings r1 (q ++ [i + 1])) with
+          | mk ot r2 =>
+            rw [hsc] at hscan
+            simp only at hscan
+            rw [List.head?_append]
+            cases ot with
+            | some x =>
+              simp only
+              rw [← hscan.1]
+              rfl
+            | none =>
+              simp only
+              rw [← hscan.1, Option.none_or]
+              exact hup r2 hscan.2.1 (hscan.2.2.1.trans hnk.2) (fun x hx => hscan.2.2.2 x (hnm.2.1 x hx))
+        · simp only [hlt, ↓reduceIte] at hns
+          subst hns
+          simp only
+          have hnil : t.children.drop (i + 1) = [] := List.drop_eq_nil_of_le (by omega)
+          simp only [hnil, leafPathsL, List.nil_append]
+          exact hup r1 hnk.1 hnk.2 hnm.2.1
+
+/-- `SyntaxToken::next_token` (and the same walk from a node) -/
+theorem nextToken_spec (r : Red) (hr : RInv r) (cur : Path) (hmat : ∀ q, q <+: cur → Mat r q)
+    (hg : ∃ c, r.green cur = some c) :
+    (r.nextToken cur).1 = (afterGo r.root (cur.length + 1) cur).head? :=
+  nextTokenGo_spec cur.length r cur hr hmat hg (Nat.le_refl _)
+
+/-! ### `prev_token` -/
+
+/-- the token leaves that precede the sub-tree at `p` in source order -/
+def beforeGo (root : Green) : Nat → Path → List Path
+  | 0, _ => []
+  | n + 1, p =>
+    match p.getLast? with
+    | none => []
+    | some i =>
+      beforeGo root n p.dropLast ++
+      (match Green.get root p.dropLast with
+       | some t => leafPathsL p.dropLast 0 (t.children.take i)
+       | none => [])
+
+/-- the backwards scan over the preceding siblings: last token leaf among children `0 … j` of `q` -/
+theorem prevSibScan_spec (r0 : Red) (q : Path) (t : Green) : ∀ (k j : Nat) (r : Red), RInv r → r.root = r0.root →
+    r.green q = some t → Mat r (q ++ [j]) → j < t.children.length → j < k →
+    (Red.prevTokenGo.sibScan r (q ++ [j]) k).1 = (leafPathsL q 0 (t.children.take (j + 1))).getLast? ∧
+    RInv (Red.prevTokenGo.sibScan r (q ++ [j]) k).2 ∧ (Red.prevTokenGo.sibScan r (q ++ [j]) k).2.root = r.root ∧
+    (∀ x, Mat r x → Mat (Red.prevTokenGo.sibScan r (q ++ [j]) k).2 x) := by
+  intro k
+  induction k with
+  | zero => intro j r _ _ _ _ _ hk; omega
+  | succ k ih =>
+    intro j r hr hroot hgq hm hj hk
+    have hcj : t.children[j]? = some t.children[j] := List.getElem?_eq_getElem hj
+    have hgc : r.green (q ++ [j]) = some t.children[j] := by
+      unfold Red.green at hgq ⊢
+      exact C03.get_child r.root q t hgq j _ hcj
+    have hfuel : gsize t.children[j] ≤ Red.walkFuel r (q ++ [j]) := by simp [Red.walkFuel, hgc]; omega
+    obtain ⟨f1, f2, f3, f4⟩ := lastTokenGo_spec _ r (q ++ [j]) t.children[j] hr hm hgc hfuel
+    simp only [Red.prevTokenGo.sibScan, Red.elemLastToken]
+    rw [leafPathsL_take_succ q t.children j _ hcj, List.getLast?_append]
+    cases hft : Red.lastTokenGo (Red.walkFuel r (q ++ [j])) r (q ++ [j]) with
+    | mk ot r1 =>
+      rw [hft] at f1 f2 f3 f4
+      simp only at f1 f2 f3 f4
+      cases ot with
+      | some x =>
+        simp only
+        rw [← f1]
+        exact ⟨by first | rfl | trivial, f2, f3, f4⟩
+      | none =>
+        simp only
+        rw [← f1, Option.none_or]
+        have hm1 : Mat r1 (q ++ [j]) := f4 _ hm
+        have hgq1 : r1.green q = some t := by unfold Red.green at hgq ⊢; rw [f3]; exact hgq
+        have hgc1 : r1.green (q ++ [j]) = some t.children[j] := by unfold Red.green at hgc ⊢; rw [f3]; exact hgc
+        obtain ⟨se, hse⟩ := range_of_mat hm1 hgc1
+        have hns := C03.prevSiblingOrToken_spec r1 q j t se hgq1 hj hse
+        have hnk : RInv (r1.prevSiblingOrToken (q ++ [j])).2 ∧ (r1.prevSiblingOrToken (q ++ [j])).2.root = r1.root :=
+          prevSiblingOrToken_keeps (q ++ [j]) r1 f2
+        have hnm := prevSiblingOrToken_mat r1 (q ++ [j])
+        cases hnr : r1.prevSiblingOrToken (q ++ [j]) with
+        | mk os r2 =>
+          rw [hnr] at hns hnk hnm
+          simp only at hns hnk hnm
+          by_cases h0 : j = 0
+          · simp only [h0, ↓reduceIte] at hns
+            subst hns
+            subst h0
+            simp only [List.take_zero, leafPathsL, List.getLast?_nil]
+            exact ⟨by first | rfl | trivial, hnk.1, hnk.2.trans f3, fun x hx => hnm.2 x (f4 x hx)⟩
+          · simp only [h0, ↓reduceIte] at hns
+            subst hns
+            simp only
+            have hgq2 : r2.green q = some t := by unfold Red.green at hgq1 ⊢; rw [hnk.2]; exact hgq1
+            have := ih (j - 1) r2 hnk.1 ((hnk.2.trans f3).trans hroot) hgq2 (hnm.1 _ rfl) (by omega) (by omega)
+            have e : j - 1 + 1 = j := by omega
+            rw [e] at this
+            exact ⟨this.1, this.2.1, (this.2.2.1.trans hnk.2).trans f3, fun x hx => this.2.2.2 x (hnm.2 x (f4 x hx))⟩
+
+/-- **`prev_token`**: the last token leaf that precedes the element in source order -/
+theorem prevTokenGo_spec (n : Nat) : ∀ (r : Red) (cur : Path), RInv r → (∀ q, q <+: cur → Mat r q) →
+    (∃ c, r.green cur = some c) → cur.length ≤ n →
+    (Red.prevTokenGo (n + 1) r cur).1 = (beforeGo r.root (n + 1) cur).getLast? := by
+  induction n with
+  | zero =>
+    intro r cur hr hmat hg hlen
+    have : cur = [] := List.eq_nil_of_length_eq_zero (by omega)
+    subst this
+    simp [Red.prevTokenGo, Red.prevSiblingOrToken, Red.split, Red.prevTokenGo.up, Red.parent, beforeGo]
+  | succ n ih =>
+    intro r cur hr hmat hg hlen
+    cases hl : cur.getLast? with
+    | none =>
+      have : cur = [] := List.getLast?_eq_none_iff.mp hl
+      subst this
+      simp [Red.prevTokenGo, Red.prevSiblingOrToken, Red.split, Red.prevTokenGo.up, Red.parent, beforeGo]
+    | some i =>
+      obtain ⟨q, rfl⟩ := List.getLast?_eq_some_iff.mp hl
+      obtain ⟨c, hc⟩ := hg
+      have hmcur : Mat r (q ++ [i]) := hmat _ (List.prefix_refl _)
+      have hgq : ∃ t, r.green q = some t ∧ t.children[i]? = some c := by
+        have : Green.get r.root (q ++ [i]) = some c := hc
+        rw [get_append_single] at this
+        cases hq : Green.get r.root q with
+        | none => simp [hq] at this
+        | some t => simp only [hq, Option.bind_some] at this; exact ⟨t, hq, this⟩
+      obtain ⟨t, htq, hti⟩ := hgq
+      have hi : i < t.children.length := (List.getElem?_eq_some_iff.mp hti).1
+      obtain ⟨se, hse⟩ := range_of_mat hmcur hc
+      have hns := C03.prevSiblingOrToken_spec r q i t se htq hi hse
+      have hnk : RInv (r.prevSiblingOrToken (q ++ [i])).2 ∧ (r.prevSiblingOrToken (q ++ [i])).2.root = r.root :=
+        prevSiblingOrToken_keeps (q ++ [i]) r hr
+      have hnm := prevSiblingOrToken_mat r (q ++ [i])
+      have hgetq : Green.get r.root q = some t := htq
+      simp only [Red.prevTokenGo, beforeGo, hl, List.dropLast_concat, hgetq]
+      have hup : ∀ (r' : Red), RInv r' → r'.root = r.root → (∀ x, Mat r x → Mat r' x) →
+          (Red.prevTokenGo.up (n + 1) r' (q ++ [i])).1 = (beforeGo r.root (n + 1) q).getLast? := by
+        intro r' hr' hroot' hmono
+        simp only [Red.prevTokenGo.up, C03.parent_child]
+        have := ih r' q hr' (fun x hx => hmono x (hmat x (List.IsPrefix.trans hx (List.prefix_append _ _))))
+          ⟨t, by unfold Red.green at htq ⊢; rw [hroot']; exact htq⟩ (by simp at hlen; omega)
+        rw [this, hroot']
+      cases hnr : r.prevSiblingOrToken (q ++ [i]) with
+      | mk os r1 =>
+        rw [hnr] at hns hnk hnm
+        simp only at hns hnk hnm
+        by_cases h0 : i = 0
+        · simp only [h0, ↓reduceIte] at hns
+          subst hns
+          subst h0
+          simp only [List.take_zero, leafPathsL, List.append_nil]
+          exact hup r1 hnk.1 hnk.2 hnm.2
+        · simp only [h0, ↓reduceIte] at hns
+          subst hns
+          simp only
+          have hgq1 : r1.green q = some t := by unfold Red.green at htq ⊢; rw [hnk.2]; exact htq
+          have hk : Red.nSiblings r1 (q ++ [i - 1]) = t.children.length + 1 := by
+            simp [Red.nSiblings, C03.parent_child, hgq1]
+          have hscan := prevSibScan_spec r q t (Red.nSiblings r1 (q ++ [i - 1])) (i - 1) r1 hnk.1 hnk.2 hgq1 (hnm.1 _ rfl) (by omega) (by rw [hk]; omega)
+          have e : i - 1 + 1 = i := by omega
+          rw [e] at hscan
+          cases hsc : Red.prevTokenGo.sibScan r1 (q ++ [i - 1]) (Red.nSiblings r1 (q ++ [i - 1])) with
+          | mk ot r2 =>
+            rw [hsc] at hscan
+            simp only at hscan
+            rw [List.getLast?_append]
+            cases ot with
+            | some x =>
+              simp only
+              rw [← hscan.1]
+              rfl
+            | none =>
+              simp only
+              rw [← hscan.1, Option.none_or]
+              exact hup r2 hscan.2.1 (hscan.2.2.1.trans hnk.2) (fun x hx => hscan.2.2.2 x (hnm.2 x hx))
+
+/-- `SyntaxToken::prev_token` (and the same walk from a node) -/
+theorem prevToken_spec (r : Red) (hr : RInv r) (cur : Path) (hmat : ∀ q, q <+: cur → Mat r q)
+    (hg : ∃ c, r.green cur = some c) :
+    (r.prevToken cur).1 = (beforeGo r.root (cur.length + 1) cur).getLast? :=
+  prevTokenGo_spec cur.length r cur hr hmat hg (Nat.le_refl _)
+
+/-! ### `beforeGo` / `afterGo` are what surrounds the sub-tree in the source order of the whole tree -/
+
+theorem leaves_split (root : Green) : ∀ (n : Nat) (cur : Path) (c : Green), Green.get root cur = some c →
+    cur.length ≤ n →
+    leafPaths [] root = beforeGo root n cur ++ leafPaths cur c ++ afterGo root n cur := by
+  intro n
+  induction n with
+  | zero =>
+    intro cur c hc hlen
+    have : cur = [] := List.eq_nil_of_length_eq_zero (by omega)
+    subst this
+    simp only [Green.get] at hc
+    cases hc
+    simp [beforeGo, afterGo]
+  | succ n ih =>
+    intro cur c hc hlen
+    cases hl : cur.getLast? with
+    | none =>
+      have : cur = [] := List.getLast?_eq_none_iff.mp hl
+      subst this
+      simp only [Green.get] at hc
+      cases hc
+      simp [beforeGo, afterGo]
+    | some i =>
+      obtain ⟨q, rfl⟩ := List.getLast?_eq_some_iff.mp hl
+      rw [get_append_single] at hc
+      cases hq : Green.get root q with
+      | none => simp [hq] at hc
+      | some t =>
+        simp only [hq, Option.bind_some] at hc
+        have hi : i < t.children.length := (List.getElem?_eq_some_iff.mp hc).1
+        have hqq := ih q t hq (by simp at hlen; omega)
+        simp only [beforeGo, afterGo, hl, List.dropLast_concat, hq]
+        rw [hqq]
+        have hsplit : leafPaths q t = leafPathsL q 0 (t.children.take i) ++ leafPaths (q ++ [i]) c ++
+            leafPathsL q (i + 1) (t.children.drop (i + 1)) := by
+          cases t with
+          | tok _ _ _ _ => simp [Green.children] at hi
+          | node id kd l h cs =>
+            simp only [Green.children] at hc hi ⊢
+            simp only [leafPaths]
+            have e : cs = cs.take (i + 1) ++ cs.drop (i + 1) := (List.take_append_drop _ _).symm
+            have hlen' : (cs.take (i + 1)).length = i + 1 := by rw [List.length_take]; omega
+            conv => lhs; rw [e]
+            rw [leafPathsL_append, leafPathsL_take_succ q cs i c hc, hlen', Nat.zero_add]
+        rw [hsplit]
+        simp only [List.append_assoc]
+
 end Cst
